@@ -211,7 +211,7 @@ fn gen_c15(tier: &str, rng: &mut Rng) -> Vec<Case> {
         let (mut html, _) = gen_doc(rng, GenOpts::all());
         // strikeout (and other inline markup) around whole blocks, pretty-printed
         if rng.chance(1, 5) {
-            let name = *rng.pick(&["del", "s", "em", "a href=\"u\""]);
+            let name = *rng.pick(&["del", "s", "em", "code"]);
             let close = name.split(' ').next().unwrap();
             let sep = *rng.pick(&[" ", "\n", "\n  ", ""]);
             html = format!("<{}>{}{}{}<p>tail</p>{}</{}>", name, sep, html, sep, sep, close);
@@ -1273,11 +1273,15 @@ fn check_c03(cases: &[Case], results: &[Option<RunResult>]) -> Vec<Violation> {
         let vis: Vec<char> = visible_chars_strict(&dom);
         let has_table = has_element(&dom, &["table"]);
         let borders = has_table && c.spec.cfg.raw == 0 && !c.spec.cfg.no_borders;
-        let visset: HashSet<char> = vis.iter().copied().collect();
+        // with borders drawn, the border characters ('/' rules of stacked rows and the box-drawing
+        // set) are not judged at all - not even when the document's own text contains them (byte
+        // mutation leaves "</" fragments as text): they are dropped on both sides
+        let is_border = |ch: &char| borders && (is_box_char(*ch) || *ch == '/');
+        let vis: Vec<char> = vis.into_iter().filter(|ch| !is_border(ch)).collect();
         let out: Vec<char> = text
             .chars()
             .filter(|ch| !ch.is_whitespace())
-            .filter(|ch| !(borders && (is_box_char(*ch) || *ch == '/') && !visset.contains(ch)))
+            .filter(|ch| !is_border(ch))
             .map(sup_back)
             .collect();
         // <sup> non-digit content is wrapped in ^{ }
